@@ -62,6 +62,8 @@ class Ctx(object):
 
     def violation(self, construct, loc, message, witness=None, instance=None):
         rule = self.current_rule
+        construct = construct.replace('__boolret', '')      # analysis copy made by util.bool_returns_normalised
+        message = message.replace('__boolret', '')
         self._inst('violation', instance or construct, loc, message)
         self.violations.append(Finding(rule, construct, loc, message, witness))
 
